@@ -32,9 +32,24 @@ def graph_signature(R, entry, all_columns):
     """multiset of node signatures (type, name, match, regex, actions, ordered child labels) of the grammar graph the
     given entry point uses — built now if this process has not built it yet"""
     import collections
-    getattr(R.m, entry)("select 1", **({"all_columns": all_columns} if all_columns else {}))
-    pname = {"parse": "common_parser", "parse_mysql": "mysql_parser", "parse_sqlserver": "sqlserver_parser", "parse_bigquery": "bigquery_parser"}[entry]
-    root = R.m.lookup_parsers[pname][all_columns].element
+    # the parser object the entry point uses is observed at the engine (mo_parsing.core.Parser.parse_string), not read
+    # from the package's private cache: how the package keeps its parsers is its own business
+    import mo_parsing.core as _core
+    seen = []
+    orig = _core.Parser.parse_string
+
+    def spy(self, *a, **k):
+        seen.append(self)
+        return orig(self, *a, **k)
+
+    _core.Parser.parse_string = spy
+    try:
+        getattr(R.m, entry)("select 1", **({"all_columns": all_columns} if all_columns else {}))
+    finally:
+        _core.Parser.parse_string = orig
+    if not seen:
+        raise RuntimeError("no engine parser observed for %s" % entry)
+    root = seen[-1].element
 
     def label(e):
         cfg = getattr(e, "parser_config", None)
